@@ -1,15 +1,18 @@
 (* line protocol (one session per line):
-     <prestamp 0|1> <override 0|1> <cmax> <k1> <k2> <r1> <r2> [<later> ...]
+     <prestamp 0|1> <override 0|1> <cmax>[T] <k1> <k2> <r1> <r2> [<later> ...]
+   cmax followed by T: the client has a timeout
    k1 / k2: number of KEEPALIVEs the reader sends while the query / the switch is unanswered
             (acknowledged at once); written <k>+<d> when d more are sent by a reader that does not
             read from then until the client has acted on the answer that follows them
-   reaction  r ::= R:<cb>:<mb>:<st> | E:<st> | W:<typ> | O | G | N
+   reaction  r ::= R:<cb>:<mb>:<st> | E:<st> | W:<typ> | O | G | N      arriving in time
+                 | S                         never answered (the link may stay alive)
+                 | L:<cb>:<mb>:<st>          the response arrives later than any client timeout allows
    later     l ::= Q<typ>:<hexpayload or empty>    a request is written
                  | A                               a KEEPALIVE is acknowledged
                  | RS | RX:<st> | RE:<st> | RW:<typ> | RN
                                                    the answer the caller of the last request gets: success, status st
                                                    in the expected response / in an ERROR_MESSAGE, wrong type, none
-   answer:   <proceeds|fails> <version> <neg frames> <later frames>
+   answer:   <proceeds|fails|waits> <version> <neg frames> <later frames>
              (later frames: what was left over from negotiation, then the traffic)
    frames ::= - | f,f,...   with f = <ver>:<typ>:<hex payload> *)
 open Model
@@ -34,6 +37,12 @@ let reaction s =
   | ["G"] -> Garbage
   | ["N"] -> NoReply
   | _ -> failwith ("bad reaction " ^ s)
+
+let timed s =
+  if s = "S" then (Never, NoReply)
+  else if String.length s > 1 && s.[0] = 'L' then
+    (AfterGivingUp, reaction ("R" ^ String.sub s 1 (String.length s - 1)))
+  else (InTime, reaction s)
 
 let later s =
   if s = "A" then PKeepAlive
@@ -72,11 +81,14 @@ let () =
               | [k; d] -> (nat_of_int (int_of_string k), nat_of_int (int_of_string d))
               | _ -> failwith ("bad keep-alive count " ^ s) in
             let (k1, d1) = kd k1 and (k2, d2) = kd k2 in
-            let (r, ps) = session_kd cfg (ni cmax) k1 d1 k2 d2
-                (reaction r1) (reaction r2) (List.map later ls) in
+            let n = String.length cmax in
+            let has_timeout = n > 0 && cmax.[n - 1] = 'T' in
+            let cmax = if has_timeout then String.sub cmax 0 (n - 1) else cmax in
+            let (waits, (r, ps)) = session_t cfg has_timeout (ni cmax) k1 d1 k2 d2
+                (timed r1) (timed r2) (List.map later ls) in
             let lf = ps.p_out in
             Printf.printf "%s %d %s %s\n"
-              (match r.n_outcome with Proceeds -> "proceeds" | Fails -> "fails")
+              (if waits then "waits" else match r.n_outcome with Proceeds -> "proceeds" | Fails -> "fails")
               (int_of_n r.n_version) (show_frames r.n_frames) (show_frames lf)
           | _ -> print_endline ("error: bad request: " ^ line)
         with Failure m -> print_endline ("error: " ^ m)
